@@ -214,6 +214,9 @@ def parallelize(  # noqa: C901
         # Put None object as the last log records queue item.
         lqueue.put_nowait(None)
 
+        if os.environ.get('ICECUBE_SKYLLH_VERIF') == '1':
+            _verif_point('done', pid, None)
+
     # Define a wrapper function that evaluates ``func`` for a subset of
     # `args_list` on the master process.
     def master_wrapper(
